@@ -24,6 +24,7 @@ from sim.sched import SimParallelFactory
 from sim.seams import rebind, record_np_random
 
 PROP = "C06"
+FORKS = True      # snapshot / restore events (core.Ctx.maybe_fork)
 LEVEL = "exploration"
 RULE = (
     "seeded (y_true,y_pred) histories (30-150 samples, sequential; 30-70 under the thread scheduler) x time_decay_factor x levels x "
@@ -133,6 +134,7 @@ def body(case, ctx, lm, log, fac):
     first_sample_warning = False
     for t, (yt, yp, seed) in enumerate(case["events"]):
         ctx.step = t
+        det = ctx.maybe_fork(det)
         if prev == "drift":
             C, R, n = [[1, 1], [1, 1]], {k: 0.5 for k in L.RATES}, 0
             recs.start_epoch()
